@@ -1,4 +1,97 @@
+//! C18 direct monitor: EventIdGenerator::next under a scripted millisecond clock.
+//! input: {"shard": n, "ops": [{"op":"clock","now":ms,"every":reads_per_ms} | {"op":"clock_delta","delta":±ms,"every":n}
+//!                             | {"op":"gen","calls":n,"tag":"..."} | {"op":"restart"}]}
+//! The oracle runs here, online: every id is compared with the previous id of the shard (strictly increasing, also across
+//! "restart" = a fresh generator as a new process lifetime would have), checked for its shard bits and entered into a set.
 use serde_json::{Value, json};
-pub fn run(_input: &Value) -> Value {
-    json!({"error": "not implemented"})
+use snel_db::engine::core::EventIdGenerator;
+use std::collections::HashSet;
+use verif_harness::hooks::{self, Clock};
+
+pub fn run(input: &Value) -> Value {
+    hooks::install();
+    let shard = input["shard"].as_u64().unwrap_or(0) as u16;
+    let mut generator = EventIdGenerator::new();
+    let mut seen: HashSet<u64> = HashSet::new();
+    let mut prev: Option<u64> = None;
+    let mut total = 0u64;
+    let mut violations: Vec<Value> = Vec::new();
+    let mut lifetimes = 1u64;
+    let mut max_per_ms = 0u64;
+    let mut cur_ms = u64::MAX;
+    let mut cur_ms_count = 0u64;
+    let mut seq_wraps = 0u64;
+    let mut clock_behind_calls = 0u64;
+    let mut distinct_ms = 0u64;
+    let mut since_restart = 0u64;
+    let empty = Vec::new();
+    for (opi, op) in input["ops"].as_array().unwrap_or(&empty).iter().enumerate() {
+        match op["op"].as_str().unwrap_or("") {
+            "clock" => {
+                hooks::set_clock(Clock::Every {
+                    now: op["now"].as_u64().unwrap_or(0),
+                    every: op["every"].as_u64().unwrap_or(1).max(1),
+                    reads: 0,
+                });
+            }
+            "clock_delta" => {
+                let cur = hooks::peek_clock().unwrap_or(0) as i128;
+                let now = (cur + op["delta"].as_i64().unwrap_or(0) as i128).max(0) as u64;
+                hooks::set_clock(Clock::Every { now, every: op["every"].as_u64().unwrap_or(1).max(1), reads: 0 });
+            }
+            "restart" => {
+                generator = EventIdGenerator::new();
+                lifetimes += 1;
+                since_restart = 0;
+            }
+            "gen" => {
+                let calls = op["calls"].as_u64().unwrap_or(0);
+                let tag = op["tag"].as_str().unwrap_or("");
+                for i in 0..calls {
+                    let clock_before = hooks::peek_clock().unwrap_or(0);
+                    let id = generator.next(shard).raw();
+                    total += 1;
+                    since_restart += 1;
+                    let ms = (id >> 22) + 1_609_459_200_000;
+                    let sh = ((id >> 12) & 0x3ff) as u16;
+                    let seq = id & 0xfff;
+                    if clock_before < ms {
+                        clock_behind_calls += 1;
+                    }
+                    if ms != cur_ms {
+                        cur_ms = ms;
+                        cur_ms_count = 0;
+                        distinct_ms += 1;
+                    }
+                    cur_ms_count += 1;
+                    max_per_ms = max_per_ms.max(cur_ms_count);
+                    if seq == 0 && cur_ms_count == 1 && i > 0 {
+                        seq_wraps += 1;
+                    }
+                    let mut bad: Option<&str> = None;
+                    if sh != (shard & 0x3ff) {
+                        bad = Some("shard_bits");
+                    } else if !seen.insert(id) {
+                        bad = Some("duplicate_id");
+                    } else if let Some(p) = prev {
+                        if id <= p {
+                            bad = Some("not_increasing");
+                        }
+                    }
+                    if let Some(kind) = bad {
+                        if violations.len() < 20 {
+                            violations.push(json!({"kind": kind, "op_index": opi, "tag": tag, "call": i, "id": id, "prev": prev,
+                                "ms": ms, "seq": seq, "clock_before": clock_before, "lifetime": lifetimes,
+                                "first_call_of_lifetime": since_restart == 1}));
+                        }
+                    }
+                    prev = Some(id);
+                }
+            }
+            _ => {}
+        }
+    }
+    hooks::set_clock(Clock::Real);
+    json!({"total": total, "distinct_ids": seen.len(), "lifetimes": lifetimes, "max_ids_per_ms": max_per_ms, "distinct_ms": distinct_ms,
+           "ticks_with_sequence_restart": seq_wraps, "calls_with_clock_behind_id": clock_behind_calls, "violations": violations})
 }
